@@ -273,6 +273,11 @@ MUTANTS = [
     (LM, 'common = self._extent & other._extent', 'common = self._extent | other._extent', ['members.meet'], 'breaks'),
     (CX, 'intent = self._Objects.frommembers(objects).prime()', 'intent = self._Objects.frommembers(objects).double()', ['contexts.intension'], 'breaks'),
     (CX, 'extent = self._Properties.frommembers(properties).prime()', 'extent = self._Objects.frommembers(properties).prime()', ['contexts.extension'], 'breaks'),
+    # a type test on the abstracted caller argument is undetermined: both outcomes are explored (seeded change C01-N)
+    (CX, 'intent = self._Objects.frommembers(objects).prime()',
+     'intent = self._Objects.frommembers(objects).prime() if not isinstance(objects, list) else self._Objects.fromint(0).prime()', ['contexts.intension'], 'breaks'),
+    (CX, 'intent = self._Objects.frommembers(objects).prime()',
+     'intent = self._Objects.frommembers(objects).prime() if not isinstance(objects, list) else self._Objects.frommembers(objects).prime()', ['contexts.intension'], 'holds'),
     (CX, 'intent, extent = intent.doubleprime()', 'extent, intent = intent.doubleprime()', ['contexts.getitem'], 'breaks'),
     (CX, 'if it.prime() == extent:', 'if it.prime() & extent == extent:', ['contexts.minimize'], 'breaks'),
     (CX, "        if not extent:\n            yield intent\n            return", "        if not extent:\n            yield intent", ['contexts.minimize'], 'breaks'),
